@@ -439,6 +439,92 @@ pub fn candle_stream_n(n: u32, max_len: usize) -> SBoxedStrategy<CandleStream> {
 		.sboxed()
 }
 
+// ---------------------------------------------------------------------------------------
+// long one-sided trends
+
+/// Long structured candle streams: a trend (linear or geometric, up or down), a long saw-tooth, a staircase
+/// or a level, each overlaid with a short zig-zag so that there is a local peak and trough every few bars.
+/// They keep oscillators on one side of zero for thousands of bars while their reversal, peak and
+/// "bars since" counters keep counting — the states a random walk leaves after a few dozen bars.
+#[derive(Clone, Debug)]
+pub struct TrendSpec {
+	pub kind: u8,
+	pub len_sel: u16,
+	pub base_sel: u8,
+	pub slope_sel: u8,
+	pub zig_sel: u8,
+	pub zig_period: u8,
+	pub wick_sel: u8,
+	pub vol_sel: u8,
+	pub jitter: Vec<u16>,
+}
+
+pub fn trend_spec_strategy() -> impl Strategy<Value = TrendSpec> {
+	(0u8..7, any::<u16>(), 0u8..4, 0u8..4, 0u8..4, 2u8..=5, 0u8..3, 0u8..4, proptest::collection::vec(any::<u16>(), 1..12))
+		.prop_map(|(kind, len_sel, base_sel, slope_sel, zig_sel, zig_period, wick_sel, vol_sel, jitter)| TrendSpec { kind, len_sel, base_sel, slope_sel, zig_sel, zig_period, wick_sel, vol_sel, jitter })
+}
+
+pub fn build_trend(spec: &TrendSpec, max_len: usize) -> Vec<C5> {
+	let len = 2 + ((spec.len_sel as usize * max_len.saturating_sub(1)) >> 16);
+	let base = [100.0, 1.0, 1e4, 0.05][spec.base_sel as usize % 4];
+	let rate = [0.005, 0.001, 0.02, 0.0003][spec.slope_sel as usize % 4];
+	let zig_rel = [0.6, 0.3, 1.5, 0.0][spec.zig_sel as usize % 4];
+	let zp = spec.zig_period.clamp(2, 5) as usize;
+	let step = base * rate;
+	let half = [300usize, 700, 1500, 64][spec.slope_sel as usize % 4];
+	let mut out = Vec::with_capacity(len);
+	let mut prev = base;
+	let mut geo = base;
+	for i in 0..len {
+		// triangle wave of period zp in [-1, 1]
+		let ph = i % zp;
+		let tri = if zp == 2 { if ph == 0 { -1.0 } else { 1.0 } } else { 1.0 - 2.0 * (ph as f64 / (zp - 1) as f64) };
+		let j = spec.jitter[i % spec.jitter.len()] as u64;
+		let jit = if spec.jitter.len() > 1 { ((crate::engine::mix(j, (i / spec.jitter.len()) as u64) % 1000) as f64 / 1000.0 - 0.5) * 0.2 } else { 0.0 };
+		let level = match spec.kind {
+			0 => base + step * i as f64,
+			1 => base + step * (len - i) as f64,
+			2 => {
+				geo *= 1.0 + rate * 0.2;
+				geo.min(1e9)
+			}
+			3 => {
+				geo *= 1.0 - rate * 0.2;
+				geo.max(1e-3)
+			}
+			4 => {
+				let k = i % (2 * half);
+				base + step * (if k < half { k } else { 2 * half - k }) as f64
+			}
+			5 => base + step * 40.0 * (i / (10 * zp)) as f64,
+			_ => base,
+		};
+		let unit = if matches!(spec.kind, 2 | 3) { level * rate * 0.2 } else { step };
+		let c = vt((level + unit * (zig_rel * tri + jit)).max(base * 1e-4));
+		let o = if i == 0 { c } else { prev };
+		let w = match spec.wick_sel % 3 {
+			0 => 0.0,
+			1 => c * 1e-3,
+			_ => c * 1e-2,
+		};
+		let h = vt(o.max(c) + w).max(o.max(c));
+		let l = vt((o.min(c) - w).max(base * 5e-5)).min(o.min(c));
+		let v = vt(match spec.vol_sel % 4 {
+			0 => 1000.0,
+			1 => if i % 2 == 0 { 0.0 } else { 500.0 },
+			2 => 1.0 + i as f64,
+			_ => (crate::engine::mix(j, i as u64) % 100_000) as f64,
+		});
+		out.push(C5 { o, h, l, c, v });
+		prev = c;
+	}
+	out
+}
+
+pub fn trend_candle_stream(max_len: usize) -> SBoxedStrategy<CandleStream> {
+	trend_spec_strategy().prop_map(move |spec| CandleStream { n: 0, cs: build_trend(&spec, max_len) }).sboxed()
+}
+
 pub fn is_valid_c5(c: &C5) -> bool {
 	c.l <= c.o && c.l <= c.c && c.o <= c.h && c.c <= c.h && c.l > 0.0 && c.v >= 0.0 && c.h.is_finite() && c.v.is_finite()
 }
